@@ -588,6 +588,15 @@ class Walker:
                 decl = callee_decl(t)
                 name = callee_name(t)
                 args = tuple(self.operand(env, mem, a) for a in t["args"])
+                ctor = None
+                if name == "<indirect>" and isinstance(t["callee"].get("op"), dict):
+                    # a call through a function pointer whose value is known on this path (`let f: fn(..) = g; f(x)`)
+                    fv = strip(self.operand(env, mem, t["callee"]["op"]))
+                    if fv[0] == "fn":
+                        name = decl = fv[1]
+                        dty = (t["dest"].get("ty") or "").split("<")[0]
+                        if dty and name.rsplit("::", 1)[0] == dty:
+                            ctor = ("agg", dty, name.rsplit("::", 1)[1], tuple((str(i), a) for i, a in enumerate(args)))
                 site = (bb, cnt) + self._tag
                 ev = {"k": "call", "callee": name, "decl": decl, "args": args, "bb": bb, "line": t["line"],
                       "exp": t.get("exp"), "site": site, "self_ty": t["callee"].get("self_ty"),
@@ -631,7 +640,9 @@ class Walker:
                     if self.npaths > self.max_paths:
                         raise TooManyPaths(body.path)
                     continue
-                if decl in self.transparent and len(args) > self.transparent[decl]:
+                if ctor is not None:
+                    res = ctor          # an enum / struct constructor used as a function value
+                elif decl in self.transparent and len(args) > self.transparent[decl]:
                     res = args[self.transparent[decl]]
                 elif decl in CLONE and args:
                     res = ("clone", args[0])
